@@ -59,8 +59,8 @@ func (C15) ID() string { return "C15" }
 func (C15) Info() core.Info {
 	return core.Info{
 		Level: "exploration",
-		Rule: "one run = one workload of 2-4 tasks using the library in a documented concurrent way - W1 independent writer->reader round trips sharing the process-wide pools, schema cache and codec values; W2 several goroutines on one opened File (opened with SkipPageIndex/SkipBloomFilters so indexes and filters are loaded lazily and raced): rows, pages, column/offset index, bloom checks; W3 one goroutine per ColumnWriter then Close; W4 BeginRowGroup row groups filled concurrently and committed in order; W5 ReadModeAsync readers with seeks and Close - executed once serially and once under the seeded scheduler (all goroutines in one synctest bubble, parked at every simulated ReadAt/Write/BufferPool call, at memory-pool Get/Put in half of the runs, and between API calls; the PRNG picks who proceeds). " +
-			"Oracle: every task's result (file bytes digest, rows digest, index digest, bloom answers) equals the serial execution's; no panic; no deadlock (no runnable goroutine while tasks are unfinished); no simulated-buffer misuse; and in the race build no race report (scheduler hand-offs are hidden from the detector). distinct = distinct (workload, task kinds, released-goroutine sequence) signatures; non-trivial = >= 2 tasks and >= 10 scheduler decisions",
+		Rule: "one run = one workload of 2-4 tasks using the library in a documented concurrent way - W1 independent writer->reader round trips sharing the process-wide pools, schema cache and codec values; W2 several goroutines on one opened File (opened with SkipPageIndex/SkipBloomFilters so indexes and filters are loaded lazily and raced): rows, pages, column/offset index, bloom checks; W3 one goroutine per ColumnWriter then Close; W4 BeginRowGroup row groups filled concurrently and committed in order, in half of the runs after rows were left pending in the parent writer (through its column writers or WriteRows); W5 ReadModeAsync readers with seeks and Close - executed once serially and once under the seeded scheduler (all goroutines in one synctest bubble, parked at every simulated ReadAt/Write/BufferPool call, at memory-pool Get/Put in half of the runs, and between API calls; the PRNG picks who proceeds). " +
+			"Oracle: every task's result (file bytes digest, rows digest, index digest, bloom answers) equals the serial execution's; no panic; no deadlock (no runnable goroutine while tasks are unfinished); no simulated-buffer misuse; no object put into a process-wide pool while already in it (page readers are closed twice in half of the page tasks); the schema of a task's Go type derived with a StructTag replacement carries the renamed column and the one derived without does not (process-wide schema cache); and in the race build no race report (scheduler hand-offs are hidden from the detector). distinct = distinct (workload, task kinds, released-goroutine sequence) signatures; non-trivial = >= 2 tasks and >= 10 scheduler decisions",
 		Real:   []string{"parquet-go File/reader/writer/ColumnWriter/ConcurrentRowGroupWriter/asyncPages/schema cache/codecs (all real code from /repo), real goroutines"},
 		Stubs:  []string{"goroutine scheduling (seeded one-at-a-time scheduler over a synctest bubble)", "source io.ReaderAt, destination io.Writer, BufferPool (gated stubs)", "internal/memory.Pool (deterministic H1/H2, optional yield point)"},
 		Assume: []string{"interleavings are explored at seam granularity; races between two plain memory accesses without a seam in between are found by the race detector's happens-before analysis, not by producing the bad value", "the select between two ready channel cases in asyncPages is decided by the Go runtime, not by the scheduler", "only documented patterns are generated (never two goroutines on one reader, buffer or row group writer)"},
